@@ -59,7 +59,7 @@ type PartyCfg struct {
 	Tag        uint32 `json:"tag"`     // 0: draw from Rand at creation
 	LazyTag    bool   `json:"lazytag"` // do not initialise the tag at creation
 	NoKeys     bool   `json:"nokeys"`
-	Peer       int    `json:"peer"` // index of the party its output is sent to
+	Peer       int    `json:"peer"`              // index of the party its output is sent to
 	Ref        bool   `json:"ref,omitempty"`     // this party is the reference implementation (refotr.Peer), not a real Conversation
 	RefFrag    int    `json:"reffrag,omitempty"` // payload bytes per fragment for a reference party (0: no fragmentation)
 }
